@@ -15,9 +15,6 @@ def main():
     ap.add_argument('--seed', type=int, default=int(os.environ.get('VERIF_SEED', '0') or 0))
     ap.add_argument('--only', default=None, choices=['deductive', 'bounded'])
     a = ap.parse_args()
-    if a.prop == 'selftest':
-        from . import selftest
-        return selftest.main()
     _guards(a.prop, a.tier)
     from .driver import run_property
     return run_property(a.prop, a.tier, a.seed, a.only)
